@@ -103,6 +103,12 @@ class Emitter:
                 if isinstance(m, tuple):
                     return self._addq(m, quals)
                 return ('c', m, quals)
+            if '<' in name:
+                cn0 = self.canon_template_name(name)
+                nn0 = norm_name(cn0)
+                for cand in (nn0, re.sub(r'>::(\w+)$', r',void>::\1', nn0)):
+                    if cand != nn and cand in self.tu.aliases:
+                        return self._addq(self.resolve(T.parse(self.tu.aliases[cand])), quals)
             rec = self.tu.find_record(name)
             if rec is None and '<' in name:
                 # sugared template arguments (e.g. app_pointer_map<vsbx::T_PointerType>): canonicalise them via the alias table
@@ -152,6 +158,19 @@ class Emitter:
         raise ExtractError('bad type term')
 
     def canon_template_name(self, name):
+        # "Tmpl<args>::member": canonicalise the template-id and keep the member suffix
+        depth = 0
+        cut = None
+        for idx, ch in enumerate(name):
+            if ch == '<':
+                depth += 1
+            elif ch == '>':
+                depth -= 1
+                if depth == 0:
+                    cut = idx
+                    break
+        if cut is not None and cut + 1 < len(name) and name[cut + 1:].startswith('::'):
+            return self.canon_template_name(name[:cut + 1]) + name[cut + 1:]
         try:
             i = name.index('<')
             args = self._split_targs(name)
@@ -178,7 +197,18 @@ class Emitter:
             if nn in self.tu.aliases:
                 return T.addq(self.canon_cxx(T.parse(self.tu.aliases[nn])), t[2])
             if '<' in t[1]:
-                return ('n', self.canon_template_name(t[1]), t[2])
+                from . import models as _m
+                try:
+                    tr = _m.std_trait_cxx(self, t[1], nn)
+                except ExtractError:
+                    tr = None
+                if tr is not None:
+                    return T.addq(self.canon_cxx(tr), t[2])
+                cn = self.canon_template_name(t[1])
+                nn2 = norm_name(cn)
+                if nn2 != nn and nn2 in self.tu.aliases:
+                    return T.addq(self.canon_cxx(T.parse(self.tu.aliases[nn2])), t[2])
+                return ('n', cn, t[2])
             return t
         if k == 'p':
             return ('p', self.canon_cxx(t[1]), t[2])
